@@ -47,7 +47,8 @@ Print Assumptions declare_var_through_block_rejected.
    also a parameter or a declaration of the body (the shapes refuted below) - a default value MAY mention a name
    that the function body declares (it is frozen by MarkFuncArgs and resolved outside the function; since /repo
    6a9c7af the body's declaration no longer adopts it); For loops (loop head with let / const / var declarations and arbitrary initialisers, one Scope
-   with MarkForStmt) whose head mentions no name that the body declares lexically; Catch with plain parameters
+   with MarkForStmt) whose body declares lexically no name that the head DECLARES (the head may mention names the
+   body declares: frozen by MarkForStmt, /repo 6a9c7af); Catch with plain parameters
    (and the mark after the parameter, /repo 8db4a8d) that the catch block does not redeclare by var/function; Class bodies without a class-expression name
    (methods, field values, computed keys, static blocks = function scopes without parameters); Decl var / function / let-const-class /
    parameter / catch parameter; Ref}: arbitrary nesting, shadowing at every level, use before declaration,
@@ -68,7 +69,6 @@ Print Assumptions declare_var_through_block_rejected.
        later parameter, an expression name redeclared inside the function, a loop body that declares lexically a
        name the loop head DECLARES, var redeclaring a catch parameter;
      - shapes on which model and ECMAScript agree on all sampled programs but which the proof does not reach:
-       a loop head that merely MENTIONS a name the body declares lexically (agreeing since /repo 6a9c7af),
        destructuring defaults in catch heads (since 8db4a8d) and class-expression names (since faa3812; the label
        machine of the proof has no step for the merge of the pending uses into the name), x => ... and the arrow
        cover grammar (UndeclareScope).
